@@ -1,4 +1,5 @@
 mod c04;
+mod c07;
 mod c12;
 mod c11;
 mod c13;
@@ -32,6 +33,8 @@ fn main() {
         "reflect" => reflect::run(&out),
         "c01" | "c03" | "c10" => storetrace::run(&out, seed, thorough, &cmd),
         "c04" => c04::run(&out, seed, thorough),
+        "c07" => c07::run(&out, seed, thorough),
+        "c07-probe" => c07::probe(),
         "c12" => c12::run(&out, seed, thorough),
         "c11" => c11::run(&out, seed, thorough),
         "c13" => c13::run(&out, seed, thorough),
